@@ -95,7 +95,10 @@ class ExprGen:
             a = self.intx(d - 1)
             b = self.intx(d - 1)
             if op in (' / ', ' % '):
-                b = self.pick(['2', '3', '7', 'm', '(n)', 'n + 1', '0x10'])    # never zero
+                # never zero (the AstInterpreter evaluates arithmetic eagerly) — but of every shape: a same-precedence
+                # right operand under / and % is where the printer must re-create parentheses
+                b = self.pick(['2', '3', '7', 'm', '(n)', 'n + 1', '0x10', 'm * 2', 'n * m', '7 / 2', 'm % 3 + 1', '5 % 3',
+                               'm / 2', '(n * 2)', '(m / 2)', '(5 % 3)', 'm - 1'])
             if self.rng.random() < 0.08:
                 b = 'x ? n : m'    # gets its parentheses below; the printer must re-create them
             # parentheses around arithmetic operands: the printer re-creates exactly the needed ones
